@@ -449,6 +449,16 @@ def c13_value_none_assignment():
     return r.value is None and r.pointer == 0, f"value {r.value}, pointer {r.pointer}"
 
 
+def c20_vp_integer_cost_tensor():
+    """C20: the Victor-Purpura distance does not depend on the dtype the cost is given in."""
+    from inferno import victor_purpura_pair_dist as vp
+    a, b = torch.tensor([0.0, 3.0]), torch.tensor([0.4, 3.3])
+    d_int = vp(a, b, torch.tensor([1]))
+    d_flt = vp(a, b, torch.tensor([1.0]))
+    ok = d_int.is_floating_point() and torch.allclose(d_int.double(), d_flt.double())
+    return ok, f"d(cost=tensor([1])) = {d_int.tolist()} ({d_int.dtype}); d(cost=tensor([1.])) = {d_flt.tolist()}"
+
+
 def c20_lognormal_logcdf():
     """C20: log-CDF equals log of the CDF."""
     try:
